@@ -174,7 +174,8 @@ class ParallelogramBoundary(BoundaryDomain):
         return torch.logical_or(x_close, y_close)
 
     def _bary_coords_close_to_0_or_1(self, bary_coord1, bary_coord2):
-        between_0_1 = torch.logical_and(0 <= bary_coord2, bary_coord2 <= 1)
+        # (with the tolerance of the closeness tests, so that corners are accepted)
+        between_0_1 = torch.logical_and(-1e-5 <= bary_coord2, bary_coord2 <= 1 + 1e-5)
         close_to_0 = torch.isclose(bary_coord1, torch.tensor(0.0), atol=1e-5)
         close_to_1 = torch.isclose(bary_coord1, torch.tensor(1.0))
         return torch.logical_and(torch.logical_or(close_to_1, close_to_0), between_0_1)
